@@ -364,6 +364,140 @@ def fn_compiled_maps(items):
     return {'n': n, 'nt': nt, 'viol': viol}
 
 
+# ---------------------------------------------------------------- special operands, kept results
+def perm_map(pi, signs):
+    N = len(pi)
+    t = np.zeros((2 * N, 2 * N), dtype=np.int64)
+    for i, j in enumerate(pi):
+        t[2 * i, 2 * j] = 1
+        t[2 * i + 1, 2 * j + 1] = 1
+    return t, np.array(signs, dtype=np.int64)
+
+
+def _scrambles(N):
+    """a few valid maps of N qubits built with the REFERENCE composition from the textbook generator tables."""
+    G = gens(N)
+    out = []
+    for start in range(0, len(G), max(1, len(G) // 5)):
+        t, s_ = G[start][1], G[start][2]
+        for k in range(1, 6):
+            nm, t2, s2 = G[(start + 3 * k) % len(G)]
+            t, s_ = ref_compose(t, s_, t2, s2)
+        out.append((t, s_ % 4))
+    return out
+
+
+def fn_special(items):
+    """item = [pkg, N, kind]:
+    'perm'  : every qubit-relabeling map (all N! permutations, two sign patterns) as FIRST and as SECOND operand of
+              compose against generators, scrambled maps and other relabelings; inverse of each.
+    'pauli' : sign-only maps (identity table, every Hermitian sign pattern for N<=2, a spread for N=3) and the identity
+              map as either operand; afterwards the RESULT is overwritten in place (embed + array write) and both
+              operands must be unchanged (a result sharing storage with an operand shows up here).
+    'kept'  : inverses and compositions of several maps are taken one after another and KEPT; after all calls every
+              kept result is read again and must be what it was when returned (a result living in a reused workspace
+              shows up here); inverse of an inverse returns the map and leaves the first inverse intact."""
+    n = nt = 0
+    viol = []
+    for item in items:
+        pkg, N, kind = item
+        I = np.eye(2 * N, dtype=np.int64)
+        Z = np.zeros(2 * N, dtype=np.int64)
+        pool = [(t, s_) for _, t, s_ in gens(N)] + _scrambles(N)
+        if kind == 'perm':
+            perms = list(itertools.permutations(range(N)))
+            for pi_i, pi in enumerate(perms):
+                for signs in ([0] * (2 * N), [2 * ((k + pi_i) % 3 == 0) for k in range(2 * N)]):
+                    tp, sp = perm_map(pi, signs)
+                    others = pool + [perm_map(perms[(pi_i + 1) % len(perms)], [2 * (k % 2) for k in range(2 * N)])]
+                    for tb, sb in others:
+                        check_compose(pkg, N, tp, sp, tb, sb, item, viol, 'compose/relabeling-first')
+                        check_compose(pkg, N, tb, sb, tp, sp, item, viol, 'compose/relabeling-second')
+                        n += 2
+                        nt += 2
+                    check_inverse(pkg, N, tp, sp, item, viol)
+                    n += 1
+        elif kind == 'pauli':
+            pats = list(itertools.product((0, 2), repeat=2 * N))
+            if N >= 3:
+                pats = pats[::5]
+            for sg in pats:
+                tb, sb = I.copy(), np.array(sg, dtype=np.int64)
+                for ta, sa in pool[::2] + [(I.copy(), Z.copy())]:
+                    for first in (True, False):
+                        a, b = ((ta, sa), (tb, sb)) if first else ((tb, sb), (ta, sa))
+                        A, B = _mk(pkg, *a), _mk(pkg, *b)
+                        C = A.compose(B)
+                        eg, ep = ref_compose(a[0], a[1], b[0], b[1])
+                        cg, cp = _arr(pkg, C)
+                        n += 1
+                        nt += 1
+                        tag = 'sign-only-%s' % ('second' if first else 'first')
+                        if (cg != eg).any() or (cp != ep).any():
+                            viol.append(V('C04/compose/%s/%s/value' % (tag, pkg), item, 'compose with a sign-only map %s differs from the reference composition' % (list(sg),)))
+                            continue
+                        # overwrite the result in place
+                        t1, s1 = dom.valid_maps(1)[9]
+                        mk = np.array([True] + [False] * (N - 1))
+                        if pkg == 'py':
+                            C.embed(lib.CM(t1, s1), mk)
+                            C.gs[...] = 1 - C.gs
+                            C.ps[...] = (C.ps + 1) % 4
+                        else:
+                            C.embed(lib.tCM(t1, s1), mk)
+                            C.gs.copy_(1 - C.gs)
+                            C.ps.copy_((C.ps + 1) % 4)
+                        ag, ap = _arr(pkg, A)
+                        bg, bp = _arr(pkg, B)
+                        if (ag != a[0]).any() or (ap != a[1] % 4).any() or (bg != b[0]).any() or (bp != b[1] % 4).any():
+                            viol.append(V('C04/compose/%s/%s/result-aliases-operand' % (tag, pkg), item,
+                                          'N=%d %s: after a.compose(b) with a sign-only %s operand %s, overwriting the RESULT in place (embed, array write) changed an operand' % (
+                                              N, pkg, 'second' if first else 'first', list(sg))))
+        else:
+            maps = pool[:8] if N >= 3 else pool
+            kept = []
+            for k, (t, s_) in enumerate(maps):
+                M = _mk(pkg, t, s_)
+                Mi = M.inverse()
+                ig, ip = _arr(pkg, Mi)
+                kept.append(('inverse of map #%d' % k, Mi, ig.copy(), ip.copy(), t, s_))
+                t2, s2 = maps[(k + 3) % len(maps)]
+                Cm = M.compose(_mk(pkg, t2, s2))
+                cg, cp = _arr(pkg, Cm)
+                kept.append(('compose(#%d, #%d)' % (k, (k + 3) % len(maps)), Cm, cg.copy(), cp.copy(), None, None))
+                n += 2
+                nt += 2
+            for label, obj, g0, p0, t, s_ in kept:
+                g1, p1 = _arr(pkg, obj)
+                if (g1 != g0).any() or (p1 != p0).any():
+                    viol.append(V('C04/kept-result/%s/changed-later' % pkg, item, 'N=%d %s: the %s changed after later inverse / compose calls on other maps' % (N, pkg, label)))
+                    break
+                if t is not None:
+                    a1, b1 = ref.map_apply(g1, p1, t, s_)
+                    a2, b2 = ref.map_apply(t, s_, g1, p1)
+                    if (a1 != I).any() or (a2 != I).any() or (b1 != Z).any() or (b2 != Z).any():
+                        viol.append(V('C04/kept-result/%s/inverse-wrong' % pkg, item, 'N=%d %s: the %s is not the two-sided inverse' % (N, pkg, label)))
+                        break
+            # inverse of an inverse
+            for k, (t, s_) in enumerate(maps):
+                M = _mk(pkg, t, s_)
+                Mi = M.inverse()
+                ig, ip = _arr(pkg, Mi)
+                ig, ip = ig.copy(), ip.copy()
+                Mii = Mi.inverse()
+                gg, pp = _arr(pkg, Mii)
+                n += 1
+                nt += 1
+                if (gg != t).any() or (pp != s_ % 4).any():
+                    viol.append(V('C04/kept-result/%s/inverse-of-inverse' % pkg, item, 'N=%d %s: inverse of the inverse of map #%d is not the map' % (N, pkg, k)))
+                    break
+                g1, p1 = _arr(pkg, Mi)
+                if (g1 != ig).any() or (p1 != ip).any():
+                    viol.append(V('C04/kept-result/%s/inverse-overwrites-receiver' % pkg, item, 'N=%d %s: taking the inverse of an inverse changed the first inverse (map #%d)' % (N, pkg, k)))
+                    break
+    return {'n': n, 'nt': nt, 'viol': viol}
+
+
 def fn_closure(items):
     """item = [N]: BFS closure of {identity} under the LIBRARY's compose with the generator maps
     must be exactly the independently enumerated valid-map set (both inclusions)."""
@@ -468,6 +602,10 @@ def legs(tier):
     from .c03 import fn_maps_n3
     out.append(Leg('N3_bfs', fn_maps_n3, [[r_, 3, 400] for r_ in range(12)] if tier == 'quick' else [[r_, 6, 20000] for r_ in range(18)], chunk=1, exhaustive=False, supplementary=True,
                    bound='N=3: BFS under the library compose from each generator (depth 3 / 400 maps per root; thorough depth 6 / 20000): compose vs reference, inverse two-sided, validity, action on all 256 strings'))
+    sp = [[pkg, N, kind] for pkg in ('py', 'torch') for kind in ('perm', 'pauli', 'kept') for N in ((1, 2, 3, 4) if kind != 'pauli' else (1, 2, 3))]
+    out.append(Leg('special_operands', fn_special, sp, chunk=1,
+                   bound='both packages: every qubit-relabeling map of N<=4 (x2 sign patterns) as first / second operand against generators and scrambled maps; sign-only and identity operands N<=3 with the result '
+                         'overwritten in place afterwards; inverses / compositions of N<=4 maps kept and re-read after later calls, inverse of an inverse'))
     out.append(Leg('closure', fn_closure, [[1], [2]], chunk=1, bound='BFS closure under the library compose = the enumerated group (24 / 11520)'))
     z = [[2, 0, 16, 'py']] + [[4, lo, lo + 4096, 'py'] for lo in range(0, 65536, 4096)]
     out.append(Leg('z2inv', fn_z2inv, z, chunk=1, bound='all 16 2x2 and all 65536 4x4 binary matrices (20160 invertible, 45376 singular)'))
